@@ -187,6 +187,33 @@ def race_runs(ck, drv, tier):
                      sig="race:" + json.dumps(u["outs"]))
 
 
+def init_race_runs(ck, drv, tier):
+    """threads that START together after another thread of the process has already finished: whatever the
+    library keeps from a finished thread for the next one to start must go to exactly one of them.  Seven
+    racing threads, each emits 20 events carrying (thread, sequence number); every stream must hold exactly
+    its own thread's events.  (Free-running: the interleaving inside ovni_thread_init is not forced.)"""
+    first = ["proc_init", "thread_init", "emit", "flush", "free", "sync"]
+    racer = ["await", "sync", "thread_init"] + ["emit"] * 20 + ["flush", "free"]
+    plan = {"progs": [first] + [racer] * 7}
+    reps = 150 if tier == "quick" else 2500
+    res = core.pmap(lambda k: free_run(drv, plan, {"OVNI_TMPDIR": "1"} if k % 2 else None, want_outs=True),
+                    list(range(reps)), workers=2)
+    bad = 0
+    for k, x in enumerate(res):
+        ck.case("init-race:%d" % k, nontrivial=True)
+        for t, d in enumerate(x["disk"], start=1):
+            want = 1 if t == 1 else 20
+            if any(e[0] != t for e in d) or [e[1] for e in d] != list(range(1, want + 1)):
+                bad += 1
+                ck.violation("threads started together after a thread of the process had finished: the stream of "
+                             "thread %d does not hold exactly the %d events it emitted (foreign, missing, duplicated "
+                             "or reordered events): %s\nprograms: %s\n%s"
+                             % (t, want, d[:12], json.dumps(plan["progs"]), x["stderr"][-400:]),
+                             {"plan.json": plan}, sig="isolation-init-race")
+                break
+    ck.notes["init_race"] = {"executions": reps, "threads_starting_together": 7, "bad": bad}
+
+
 def main(pid, tier):
     ck = core.Check(pid, "model_checking", tier)
     bdir = core.build("hooks")
@@ -276,6 +303,8 @@ def main(pid, tier):
         ck.phase("tsan")
     race_runs(ck, drv, tier)
     ck.phase("race_outcomes")
+    init_race_runs(ck, drv, tier)
+    ck.phase("init_race")
     # "each thread's ... metadata contain exactly what that thread ... set": the attribute API
     # (spec/RtAttr.tla), single- and multi-threaded call sequences replayed on libovni
     from checks import rtattr
